@@ -7,6 +7,7 @@ bounds in the statement.
 """
 from __future__ import annotations
 
+import contextlib
 import json
 import os
 import shutil
@@ -93,6 +94,9 @@ def cases(draw):
         # a failed submission is raised by the task generator (local/simulator backends) or reported by an accepted
         # task as its exit reason (LSF / Kubernetes backends)
         "subfail_as_exit": draw(st.booleans()),
+        # the process-wide tracker of system errors (monitor.MonitorExceptionTracker) holds a recent system error when
+        # the task exits: the controller then waits for stability before it asks for the restart (the policy is the same)
+        "unstable": draw(st.sampled_from([None, None, None, "recovers", "persists"])),
     }
 
 
@@ -120,6 +124,28 @@ def limit_of(case):
     if m == -1:
         return None
     return m
+
+
+@contextlib.contextmanager
+def _system_errors(mode):
+    """Puts the process-wide MonitorExceptionTracker on the virtual clock; with a mode, files one system error in it
+    (dated at the start of the run: the system looks stable again once the controller has waited; or dated a day
+    ahead: it never does)."""
+    import datetime as _dt
+    import experiment.runtime.monitor as monitor
+    import experiment.runtime.errors
+    from ..rt import kernel
+    saved = (monitor.datetime, monitor.MonitorExceptionTracker.default)
+    monitor.datetime = kernel.datetime_shim()
+    tracker = monitor.MonitorExceptionTracker.default = monitor.MonitorExceptionTracker()
+    try:
+        if mode:
+            tracker.addException(experiment.runtime.errors.systemErrors[0]("scripted system error"))
+            if mode == "persists":
+                tracker.exceptions[-1]["date"] = tracker.exceptions[-1]["date"] + _dt.timedelta(days=1)
+        yield tracker
+    finally:
+        monitor.datetime, monitor.MonitorExceptionTracker.default = saved
 
 
 def check(case, ctx: Ctx):
@@ -155,7 +181,8 @@ def check(case, ctx: Ctx):
         drv = rtdriver.Driver(exp, PatternChooser(case["sched"]), {ref: list(case["reasons"])},
                               max_decisions=40000, max_items=400000, post_run=late_restart)
         drv.backend.submission_failure_as_exit = bool(case.get("subfail_as_exit"))
-        res = drv.run()
+        with _system_errors(case.get("unstable")):
+            res = drv.run()
         hook_calls = []
         if case["hookPresent"]:
             with open(os.path.join(hooks_dir, "hook_script.json")) as f:
@@ -224,7 +251,8 @@ def check(case, ctx: Ctx):
     ctx.rec.label("launches=%s" % ("1" if len(launches) == 1 else "2-4" if len(launches) < 5 else "5+"),
                   "refused" if refused else "ended-success", "cap-reached" if cap else "below-cap",
                   "hook-called" if hook_calls else "hook-not-called",
-                  "limit=%s" % ("unlimited" if limit is None else limit))
+                  "limit=%s" % ("unlimited" if limit is None else limit),
+                  "system-errors:%s" % (case.get("unstable") or "none"))
     if (refused and restarts >= 1) or cap or distinct_bad >= 2:
         ctx.rec.nt(["c12", {k: case[k] for k in case if k != "sched"}],
                    {"options": {k: case[k] for k in ("maxRestarts", "restartHookFile", "hookPresent", "restartHookOn",
